@@ -595,7 +595,7 @@ def cpp_repo_units(scratch, quick=True):
     tls = REPO / "internal/tlcodegen/test/tls"
     d = Path(scratch) / "schemas"
     d.mkdir(parents=True, exist_ok=True)
-    groups = [("cpp", [tls / "cpp.tl"]), ("cases", [tls / "cases.tl"])]
+    groups = [("cpp", [tls / "cpp.tl"]), ("cases", [tls / "cases.tl"]), ("cppx", [VERIF / "corpus/C31/cppx.tl"])]
     if not quick:
         groups += [("goldmaster", [tls / "goldmaster.tl", tls / "goldmaster2.tl", tls / "goldmaster3.tl"]), ("schema", [tls / "schema.tl"])]
     out = []
